@@ -7,9 +7,41 @@ import GEVerif.Model.Grammar
 namespace GEVerif.Drive
 open GEVerif Sexp
 
+def hexVal (c : Char) : Option Nat :=
+  if '0' ≤ c ∧ c ≤ '9' then some (c.toNat - '0'.toNat)
+  else if 'a' ≤ c ∧ c ≤ 'f' then some (c.toNat - 'a'.toNat + 10)
+  else none
+
+def decodeHex : List Char → Option (List UInt8)
+  | [] => some []
+  | a :: b :: rest => do
+      let x ← hexVal a
+      let y ← hexVal b
+      let r ← decodeHex rest
+      pure (UInt8.ofNat (16 * x + y) :: r)
+  | _ => none
+
+/-- Strings on the wire (the harness's `gram.hexs`): `-` is the empty string, `0x<hex>` the UTF-8
+bytes in hexadecimal, anything else stands for itself. -/
+def decodeStr (s : String) : String :=
+  if s == "-" then ""
+  else if s.startsWith "0x" then
+    match decodeHex (s.toList.drop 2) with
+    | some bs => (String.fromUTF8? (ByteArray.mk bs.toArray)).getD s
+    | none => s
+  else s
+
+def hexDigitChar (n : Nat) : Char := if n < 10 then Char.ofNat ('0'.toNat + n) else Char.ofNat ('a'.toNat + n - 10)
+
+def encodeStr (s : String) : String :=
+  if s.isEmpty then "-"
+  else if s.all (fun c => c.isAlphanum) && s != "-" && !(s.startsWith "0x") then s
+  else "0x" ++ String.ofList (s.toUTF8.toList.flatMap (fun b => [hexDigitChar (b.toNat / 16), hexDigitChar (b.toNat % 16)]))
+
+
 def parseStrs (s : Sexp) : Option (List String) := do
   let xs ← s.asList?
-  xs.mapM asAtom?
+  (← xs.mapM asAtom?).map decodeStr
 
 def parseMH : Sexp → Option MH
   | list [atom "intRange", lo, hi] => do pure (.intRange (← lo.asInt?) (← hi.asInt?))
@@ -41,7 +73,7 @@ partial def parseTy : Sexp → Option Ty
   | list [atom "ann", t, mh] => do pure (.ann (← parseTy t) (← parseMH mh))
   | _ => none
 
-def strsSx (xs : List String) : Sexp := list (xs.map atom)
+def strsSx (xs : List String) : Sexp := list (xs.map (fun x => atom (encodeStr x)))
 
 def mhSx : MH → Sexp
   | .intRange lo hi => list [atom "intRange", ofInt lo, ofInt hi]
